@@ -17,11 +17,17 @@ CRATE_OF = {"core/": "mina_core", "macros/": "mina_macros", "bevy/": "bevy_mina"
 
 
 def sh(cmd, cwd=None, timeout=None, env=None):
+    import signal
+    p = subprocess.Popen(cmd, cwd=cwd, shell=isinstance(cmd, str), stdout=subprocess.PIPE, stderr=subprocess.STDOUT, text=True, env=env, start_new_session=True)
     try:
-        p = subprocess.run(cmd, cwd=cwd, shell=isinstance(cmd, str), stdout=subprocess.PIPE, stderr=subprocess.STDOUT, text=True, timeout=timeout, env=env)
-        return p.returncode, p.stdout
-    except subprocess.TimeoutExpired as e:
-        return 124, (e.stdout or "") if isinstance(e.stdout, str) else ""
+        out, _ = p.communicate(timeout=timeout)
+        return p.returncode, out
+    except subprocess.TimeoutExpired:
+        try: os.killpg(p.pid, signal.SIGKILL)
+        except Exception: pass
+        try: p.wait(timeout=10)
+        except Exception: pass
+        return 124, "timeout"
 
 
 def worker(idx, nworkers, mutants_path, results_path, all_props):
@@ -29,8 +35,9 @@ def worker(idx, nworkers, mutants_path, results_path, all_props):
     env = dict(os.environ, CARGO_NET_OFFLINE="true", CARGO_TARGET_DIR=f"/repo/target")
     muts = [json.loads(l) for l in open(mutants_path)]
     done = set()
-    if os.path.exists(results_path):
-        for l in open(results_path):
+    for rp in (results_path, results_path.rsplit(".w", 1)[0]):
+      if os.path.exists(rp):
+        for l in open(rp):
             try: done.add(json.loads(l)["id"])
             except Exception: pass
     for k, m in enumerate(muts):
@@ -49,12 +56,13 @@ def worker(idx, nworkers, mutants_path, results_path, all_props):
                 rec = dict(id=m["id"], status="no-compile")
             else:
                 pk = "-p mina_core -p mina -p mina_macros" if crate != "bevy_mina" else "-p bevy_mina"
-                rc, out = sh(f"cargo test --offline --no-fail-fast {pk} 2>&1 | grep -E '^test result|FAILED|failed' | head -20", cwd="/repo", env=env, timeout=1800)
+                rc, out = sh(f"cargo test --offline --no-fail-fast {pk} 2>&1 | grep -E '^test result|FAILED|failed' | head -20", cwd="/repo", env=env, timeout=600)
+                if rc == 124: out = "FAILED (timeout: the test suite hangs)"
                 tests_ok = ("FAILED" not in out and "failed" not in out.replace("0 failed", "")) and "test result" in out
                 rec = dict(id=m["id"], status="ok", tests_pass=tests_ok, checks={})
                 if tests_ok or all_props:
                     for p in m["props"]:
-                        rc, out = sh(["./check", p], cwd="/verif", timeout=1800)
+                        rc, out = sh(["./check", p], cwd="/verif", timeout=2400)
                         viol = [l for l in out.splitlines() if l.startswith("VIOLATION")]
                         summary = [l for l in out.splitlines() if l.startswith(p + " [")]
                         rec["checks"][p] = dict(rc=rc, violation=(viol[0][:200] if viol else None), summary=(summary[0][:220] if summary else out[-300:]))
